@@ -77,7 +77,8 @@ class NegSoftplusTransform(SoftplusTransform):
         Args:
             upper (ArrayLike): Upper bound of the interval.
         """
-        super().__init__(upper)
+        # `-softplus(-x) + upper` is `-(softplus(-x) + lower)` with `lower = -upper`.
+        super().__init__(-upper)
 
     def forward(self, x: ArrayLike) -> Array:
         return -super().forward(-x)
